@@ -6,6 +6,7 @@
 -/
 import Nuts.Model.Tx
 import NutsProofs.Props.C10
+import NutsProofs.Lemmas.ReopenAll
 namespace NutsProofs.C09
 open Nuts Nuts.Model Nuts.Model.DB NutsProofs
 
@@ -194,5 +195,21 @@ that does not exist — the shape that used to abort `Open`, D-REPLAY-ABORT) and
 example : (openDB {} [{ fid := 0, recs := [
       (0, { (mkRec [98] [97, 98] [121] flagDelete dsSet) with txid := 1, status := 1 }),
       (46, { (mkRec [98] [107, 124, 53] [118] flagZAdd dsZSet) with txid := 2, status := 1, score := 5 })] }]).2 = .ok () := by decide
+
+open NutsProofs.Reopen NutsProofs.ReopenAll in
+/-- **C09 (every history, key+value mode).** After any history of successfully committed transactions over
+all four structures and reopens — and also when the process died inside the next `Commit` after any number of
+its records short of the last — `Open` succeeds on the directory: no error, no panic. (Records that never
+panicked the applier at commit time do not panic it at replay; an unmarked suffix is skipped.) Torn records
+are outside this theorem: finding D-TORN-CRC. -/
+theorem C09_open_succeeds_after_every_history (opt0 : Opts) (ops : List OpA) (hok : OpsOkA (openDB opt0 []).1 ops)
+    (opt : Opts) (hm : opt.mode = 0) :
+    (openDB opt (ops.foldl stepA (openDB opt0 []).1).files).2 = .ok () ∧
+    ∀ (t : List Rec) (tid j : Nat), (∀ r ∈ t, r.txid = tid ∧ r.status = 0) →
+      (∀ x ∈ allRecs (ops.foldl stepA (openDB opt0 []).1).files, x.1.txid ≠ tid) →
+      (openDB opt (crashAfterA (ops.foldl stepA (openDB opt0 []).1) t j).files).2 = .ok () := by
+  have hinv : AllInv (ops.foldl stepA (openDB opt0 []).1) := allInv_ops ops _ (allInv_init opt0) hok
+  exact ⟨(open_rebuilds_all _ hinv opt hm).1,
+    fun t tid j ht hfresh => (crash_in_commit_any _ hinv t tid j ht hfresh opt hm).1⟩
 
 end NutsProofs.C09
